@@ -407,6 +407,28 @@ def alter(octets, cls, target_num=1):
             blocks = _edit_asb(bun, fn)
         except ValueError:
             return None
+    elif cls == 'tgt.data+attached':
+        # the target content is altered while the genuine content rides along inside the COSE message (whose
+        # payload must be detached): a verifier that trusts the embedded copy accepts the altered block
+        genuine = bytes(tgt['data'])
+        if not genuine:
+            return None
+
+        def fn(a):
+            (rid, val) = a['results'][0][0]
+
+            def edit(msg):
+                if len(msg) < 3 or msg[2] is not None:
+                    raise ValueError('no detached payload slot')
+                msg[2] = genuine
+            a['results'][0][0] = (rid, _edit_msg(val, edit))
+        try:
+            blocks = _edit_asb(bun, fn)
+        except ValueError:
+            return None
+        for b in blocks:
+            if b['num'] == target_num:
+                b['data'] = genuine[:-1] + bytes([genuine[-1] ^ 1])
     else:
         raise ValueError(cls)
     return bp7.write_bundle(p, blocks)
@@ -414,7 +436,7 @@ def alter(octets, cls, target_num=1):
 
 CLASSES = ['none', 'pri.flags', 'pri.src', 'pri.rpt', 'pri.ts', 'pri.lifetime', 'pri.crc', 'tgt.flags', 'tgt.crc',
            'tgt.data', 'tgt.num', 'tgt.type', 'sec.flags', 'sec.num', 'other.meta', 'other.data', 'sec.source',
-           'sec.scope', 'sec.protected', 'res.tag', 'res.alg', 'res.kid']
+           'sec.scope', 'sec.protected', 'res.tag', 'res.alg', 'res.kid', 'tgt.data+attached']
 
 
 def scope_record(scope):
